@@ -754,3 +754,44 @@ func vIDString(name string) string {
 
 func vEmptyStore() dsig.X509CertificateStore                 { return &dsig.MemoryX509CertificateStore{} }
 func vValidateCtxSince(k int, sp *SAMLServiceProvider) bool { return true }
+
+// vCertBytes: a real certificate for key "sp" with the solver's validity bounds, or garbage / nothing.
+func vCertBytes(name string) []byte {
+	n := vxFresh(name)
+	if vxI64(n+".len") == 0 {
+		return nil
+	}
+	if ok, _ := vx.inputs[n+".x509_ok"].(bool); !ok {
+		return []byte("this is not a DER certificate")
+	}
+	k := vRSAKey("sp")
+	tpl := &x509.Certificate{SerialNumber: big.NewInt(7), NotBefore: time.Unix(vxI64(n+".nb_sec"), 0).UTC(), NotAfter: time.Unix(vxI64(n+".na_sec"), 0).UTC()}
+	der, err := x509.CreateCertificate(vxOrigRandReader, tpl, tpl, &k.PublicKey, k)
+	if err != nil {
+		return []byte("certificate creation failed: " + err.Error())
+	}
+	return der
+}
+func vX509OK(der []byte) bool {
+	_, err := x509.ParseCertificate(der)
+	return err == nil
+}
+func vX509NotBefore(der []byte) int64 {
+	c, err := x509.ParseCertificate(der)
+	if err != nil {
+		return 0
+	}
+	return c.NotBefore.UnixNano()
+}
+func vX509NotAfter(der []byte) int64 {
+	c, err := x509.ParseCertificate(der)
+	if err != nil {
+		return 0
+	}
+	return c.NotAfter.UnixNano()
+}
+func vX509ParseCalls() int { return 0 }
+func vB64Dec(s string) string {
+	b, _ := base64.StdEncoding.DecodeString(s)
+	return string(b)
+}
